@@ -81,13 +81,17 @@ def run(ctx, progs):
             store_ok = match(C("ArcSwapAny::store", F(C("Deref::deref", F(F(P(1), "parent"), "inner")), "0"), C("Arc::new", P(2))), deep_strip(b.call_term(st[0].t, st[0].pos, 0)), e)
         # drop of self (or of its _guard field) must come after the store on every path
         drops = []
+        def holds_lock(term):
+            """the by-value self, or the MutexGuard moved out of it (`let Self { parent, _guard: g } = self;`)"""
+            d = deep_strip(term)
+            return d[:2] == ('param', 1) or (d[0] == 'field' and d[2] == '_guard' and deep_strip(d[1])[:2] == ('param', 1))
         for pos, t in b.terms():
-            if t["k"] == "drop" and t["pl"]["l"] == 1:
+            if t["k"] == "drop" and (t["pl"]["l"] == 1 or ("p" not in t["pl"] and holds_lock(b.local_term(t["pl"]["l"], pos, 0)))):
                 drops.append(pos)
-            # explicit release: self moved into a call (mem::drop(self)) — other than the store itself
+            # explicit release: self (or its guard) moved into a call (mem::drop(..)) — other than the store itself
             if t["k"] == "call" and not WRITERS.search(canon(t.get("resolved") or t.get("callee") or "")):
                 for a2 in t["args"]:
-                    if a2["k"] == "move" and "p" not in a2["pl"] and deep_strip(b.term(a2, pos))[:2] == ('param', 1) and b.local_ty(a2["pl"]["l"]).k == "adt":
+                    if a2["k"] == "move" and "p" not in a2["pl"] and holds_lock(b.term(a2, pos)) and b.local_ty(a2["pl"]["l"]).k == "adt":
                         drops.append(pos)
         order_ok = bool(st) and all(b.pos_dominates(st[0].pos, d) for d in drops) and bool(drops)
         # `map` not used after the store
